@@ -91,9 +91,9 @@ func eqInts(a, b []int) bool {
 }
 
 type lop struct {
-	kind    string
-	a, b    int
-	name    string
+	kind string
+	a, b int
+	name string
 }
 
 type listSys struct {
